@@ -16,7 +16,7 @@ Require Import String.
 Require Import Arith Lia List Bool ZArith QArith Qcanon Permutation.
 From TK Require Import Mat_Sums Mat_Core Mat_Qc Mat_EigSelect EigSelect Mat_EigSelect_Tie
                        Lle_Model Lle_Spec Lle_Proof_Triplets Lle_Proof_Lle Lle_Proof_Ltsa
-                       Lle_Proof_Hlle Lle_Proof_Embed Lle_Proof_Gs Lle_Proof_GsQc Lle_Proof_KyFan Lle_Proof_Flat Lle_Proof_Run Lle_Loop HlleLoop Lle_Proof_Loop Lle_Proof_Psd Lle_Proof_EndToEnd Lle_Proof_Scale Lle_Proof_Proj.
+                       Lle_Proof_Hlle Lle_Proof_Embed Lle_Proof_Gs Lle_Proof_GsQc Lle_Proof_KyFan Lle_Proof_Flat Lle_Proof_Run Lle_Loop HlleLoop Lle_Proof_Loop Lle_Proof_Psd Lle_Proof_EndToEnd Lle_Proof_Scale Lle_Proof_Proj LleCalls Lle_Calls.
 Import ListNotations.
 Local Open Scope nat_scope.
 
@@ -842,3 +842,19 @@ Proof.
           destruct a as [|[|[|[|a]]]]; try lia; apply Qc_is_canon; vm_compute; reflexivity|].
   split; apply gs_nondegenerate_by_compute; vm_compute; reflexivity.
 Qed.
+
+(* ---------------------------------------------------------------------- *)
+(* 11. The method classes (wave 2): tables generated from embed() of the   *)
+(*     three classes and from the routines' signatures (T-lle-calls).      *)
+(*     The binding the model and the harness assume: nullspace_shift is    *)
+(*     what is added to the diagonal, klle_shift is the factor of the      *)
+(*     trace regulariser, neighbours come from kernel_distance, the        *)
+(*     routine's matrix goes to the SmallestEigenvalues front-end with     *)
+(*     parameters[target_dimension] and `.first` is returned.              *)
+(* ---------------------------------------------------------------------- *)
+Theorem C08_method_calls_table :
+  method_ok mc_lle_sig mc_klle_call mc_klle_neighbors mc_klle_matrix mc_klle_eig klle_binding = true /\
+  method_ok mc_ltsa_sig mc_kltsa_call mc_kltsa_neighbors mc_kltsa_matrix mc_kltsa_eig kltsa_binding = true /\
+  method_ok mc_hlle_sig mc_hlle_call mc_hlle_neighbors mc_hlle_matrix mc_hlle_eig hlle_binding = true.
+Proof. exact lle_calls_table. Qed.
+Print Assumptions C08_method_calls_table.
